@@ -504,7 +504,7 @@ def c11(ctx):
     vlib.tlc_gen(ctx, "GenRegistry.tla", "Gen_Registry_2.cfg", f1, timeout=900)
     files.append(f1)
     f2 = ctx.path("gs_sim.ndjson")
-    vlib.tlc_gen(ctx, "GenRegistry.tla", "Gen_Registry_sim.cfg", f2, simulate=(4 if q else 60, 30))
+    vlib.tlc_gen(ctx, "GenRegistry.tla", "Gen_Registry_sim.cfg", f2, simulate=(40 if q else 200, 30))
     files.append(f2)
     f3 = ctx.path("gs_wrap.ndjson")
     registry_wrap_program(f3)
@@ -1555,6 +1555,28 @@ def c04(ctx):
                  "already completed with)")
     tcp_pipeline(ctx, "C04", n_quick=120, n_thorough=3000)
     udp_pipeline(ctx, "C04", n_quick=400, n_thorough=10000, mc=False)
+    # resolvers: cancel() / destruction (also at the instant a lookup completes, also inside completion handlers): every
+    # pending lookup completes exactly once with operation_aborted, never inline, none is dropped
+    fr = ctx.path("rs_c04.ndjson")
+    rand_resolver_programs(ctx.seed + 100, 1500 if ctx.tier == "quick" else 40000, fr)
+    res, total, chunks = vlib.replay(ctx, "record-resolver", fr, keep=True, env={"VH_WALL_LIMIT": "600"})
+    bad = [r for r in res if not r.get("ok")]
+    cases = vlib.read_lines(fr, [r["i"] for r in bad[:50]])
+    for r in bad:
+        ctx.violation("resolver." + r["sig"], r.get("msg", ""), cases.get(r["i"], {"index": r["i"]}), {"subcmd": "record-resolver"})
+    ctx.evaluations += len(res)
+    traces = [c + ".trace" for c in chunks if os.path.exists(c + ".trace")]
+    for (nruns, nev, rejected), tp in zip(vlib.validate_traces(ctx, "TraceResolver.tla", "Trace_Resolver.cfg", traces), traces):
+        ctx.traces += nruns
+        for rj in rejected:
+            sig = classify_resolver_reject(rj)
+            cancelled = any(l.startswith('{"e":"Cancel"') for l in rj["lines"][:rj["at"] + 1])
+            if sig == "resolver.handler-inline" or (cancelled and sig.startswith(("resolver.late-or-missing", "resolver.lookup-never", "resolver.completion"))):
+                ctx.violation(sig + "(after cancel/destroy)" if cancelled else sig,
+                              "trace rejected at event %d: %s (spec state %s)" % (rj["at"], rj["event"][:300], rj["state"]),
+                              {"trace": rj["lines"]}, {"kind": "trace", "module": "TraceResolver.tla", "cfg": "Trace_Resolver.cfg"})
+            else:
+                log("[C04] rejected resolver run belongs to C14: %s" % sig)
     # timers: inline / nested / order signatures of the SimCore corpus
     for cfg, sim in (("Gen_SimCore_q.cfg", None), ("Gen_SimCore_sim.cfg", (800 if ctx.tier == "quick" else 10000, 300))):
         f1 = ctx.path("beh_%s.ndjson" % ("sim" if sim else "bfs"))
